@@ -676,6 +676,10 @@ class Ref:
                     sh = self.store.get(p.strip("."))
                     if sh is not None:
                         snap["shares"][p] = (tuple(sh.fields.items()), sh.stamp)
+                        if sh.marks:
+                            snap.setdefault("marks", {})[p] = tuple(
+                                (key, m.stamp, m.used, None if m.data is None else tuple(sorted(m.data.items())))
+                                for key, m in sh.marks.items())
                 out.ticks.append(snap)
                 out.events.append(self.log)
                 self.log = []
